@@ -1,6 +1,7 @@
 (* Base/PyInt.v — str(int) and int(str) for base 10, as CPython defines them:
-   int(str) strips Unicode whitespace, accepts one optional sign, Unicode decimal
-   digits, and single underscores between digits.
+   int(str) strips whitespace (str.isspace characters EXCEPT U+001C..U+001F, which CPython's
+   int() does not skip: characters < 127 are only skipped when C isspace() holds), accepts one
+   optional sign, Unicode decimal digits, and single underscores between digits.
    Not modelled: the 4300-digit limit of CPython >= 3.11 (inputs are kept below). *)
 Require Import OV.Base.Bytes OV.Gen.Unicode.
 Open Scope N_scope.
@@ -24,6 +25,13 @@ Fixpoint lstrip (s : str) : str :=
 Definition rstrip (s : str) : str := rev (lstrip (rev s)).
 Definition strip (s : str) : str := rstrip (lstrip s).
 
+(* the whitespace int() skips: str.isspace minus the four ASCII separators FS, GS, RS, US *)
+Definition int_space (c : N) : bool := is_space c && negb ((28 <=? c) && (c <=? 31)).
+Fixpoint ilstrip (s : str) : str :=
+  match s with c :: t => if int_space c then ilstrip t else s | [] => [] end.
+Definition irstrip (s : str) : str := rev (ilstrip (rev s)).
+Definition istrip (s : str) : str := irstrip (ilstrip s).
+
 (* digits with single underscores between digits *)
 Fixpoint digits_us (s : str) (acc : N) (prev_digit : bool) : option N :=
   match s with
@@ -37,7 +45,7 @@ Fixpoint digits_us (s : str) (acc : N) (prev_digit : bool) : option N :=
   end.
 
 Definition py_int (s : str) : option Z :=
-  match strip s with
+  match istrip s with
   | [] => None
   | c :: t =>
       if c =? 43 then option_map Z.of_N (digits_us t 0 false)
@@ -157,6 +165,11 @@ Proof. unfold dec_of_N. apply dec_fuel_nonnil. right. discriminate. Qed.
 Lemma lstrip_nospace c t : is_space c = false -> lstrip (c :: t) = c :: t.
 Proof. intros H. cbn [lstrip]. rewrite H. reflexivity. Qed.
 
+Lemma int_space_is_space c : is_space c = false -> int_space c = false.
+Proof. intros H. unfold int_space. rewrite H. reflexivity. Qed.
+Lemma ilstrip_nospace c t : int_space c = false -> ilstrip (c :: t) = c :: t.
+Proof. intros H. cbn [ilstrip]. rewrite H. reflexivity. Qed.
+
 Lemma all_digits_rev s : all_ascii_digits (rev s) = all_ascii_digits s.
 Proof.
   unfold all_ascii_digits. induction s as [|c s IH]; [reflexivity|].
@@ -174,6 +187,34 @@ Lemma strip_digits s : all_ascii_digits s = true -> strip s = s.
 Proof.
   intros H. unfold strip, rstrip. rewrite (lstrip_digits s H).
   rewrite lstrip_digits by (rewrite all_digits_rev; exact H). apply rev_involutive.
+Qed.
+
+Lemma ilstrip_digits s : all_ascii_digits s = true -> ilstrip s = s.
+Proof.
+  destruct s as [|c t]; [reflexivity|]. cbn [all_ascii_digits forallb]. intros H.
+  apply andb_true_iff in H. destruct H as [Hc _].
+  apply ilstrip_nospace, int_space_is_space, is_space_ascii_digit, Hc.
+Qed.
+
+Lemma istrip_digits s : all_ascii_digits s = true -> istrip s = s.
+Proof.
+  intros H. unfold istrip, irstrip. rewrite (ilstrip_digits s H).
+  rewrite ilstrip_digits by (rewrite all_digits_rev; exact H). apply rev_involutive.
+Qed.
+
+Lemma istrip_minus_digits s : all_ascii_digits s = true -> istrip (45 :: s) = 45 :: s.
+Proof.
+  intros H. unfold istrip, irstrip.
+  rewrite (ilstrip_nospace 45 s) by reflexivity.
+  destruct s as [|c t] using rev_ind.
+  - reflexivity.
+  - clear IHt. replace (45 :: t ++ [c]) with ((45 :: t) ++ [c]) by reflexivity.
+    rewrite rev_app_distr. cbn [rev app].
+    unfold all_ascii_digits in H. rewrite forallb_app in H. cbn in H.
+    apply andb_true_iff in H. destruct H as [_ Hc]. rewrite andb_true_r in Hc.
+    rewrite ilstrip_nospace by (apply int_space_is_space, is_space_ascii_digit, Hc).
+    change (c :: rev t ++ [45]) with ([c] ++ (rev t ++ [45])).
+    rewrite rev_app_distr, rev_app_distr, rev_involutive. reflexivity.
 Qed.
 
 Lemma strip_minus_digits s : all_ascii_digits s = true -> strip (45 :: s) = 45 :: s.
@@ -195,7 +236,7 @@ Qed.
 Lemma py_int_digits s : all_ascii_digits s = true -> s <> [] ->
   py_int s = Some (Z.of_N (dval s 0)).
 Proof.
-  intros Hd Hne. unfold py_int. rewrite (strip_digits s Hd).
+  intros Hd Hne. unfold py_int. rewrite (istrip_digits s Hd).
   destruct s as [|c t]; [congruence|].
   assert (Hc : ascii_digit c = true) by (cbn in Hd; apply andb_true_iff in Hd; tauto).
   replace (c =? 43) with false by (unfold ascii_digit in Hc; lia).
@@ -209,7 +250,7 @@ Proof.
   - reflexivity.
   - rewrite py_int_digits by (apply dec_of_N_digits || apply dec_of_N_nonnil).
     rewrite dval_dec_of_N. reflexivity.
-  - unfold py_int. rewrite strip_minus_digits by apply dec_of_N_digits.
+  - unfold py_int. rewrite istrip_minus_digits by apply dec_of_N_digits.
     cbn [N.eqb Pos.eqb].
     rewrite digits_us_ascii; [|apply dec_of_N_digits|left; apply dec_of_N_nonnil].
     rewrite dval_dec_of_N. reflexivity.
